@@ -18,6 +18,13 @@ from ..loader import Program, repo_root
 
 def _apply(entry):
     root = repo_root()
+    if entry.get("patch"):
+        from . import patch as _patch
+        try:
+            with open(entry["patch"], encoding="utf-8") as f:
+                return _patch.apply(f.read(), root)
+        except OSError:
+            return None
     overlay = {}
     for path, old, new in entry["edits"]:
         text = overlay.get(path)
@@ -60,9 +67,31 @@ def run_entry(entry):
         return entry["name"], "fail", "twin raised exit %s: %s %s" % (code, det, und)
 
 
-def select(prop=None):
+def select(prop=None, patches=False):
     from .corpus import CORPUS
-    return [e for e in CORPUS if prop is None or e["prop"] == prop]
+    out = [e for e in CORPUS if prop is None or e["prop"] == prop]
+    if patches:
+        out += patch_entries(prop)
+    return out
+
+
+def patch_entries(prop=None):
+    """the confirmed seeded changes of a property (mutants: must be reported by one of its rules) and the sub-agents' behaviour-preserving
+    refactoring patches (twins: the property's check must stay silent), applied as in-memory overlays"""
+    import glob
+    import json
+    base = os.path.join(os.path.dirname(os.path.dirname(os.path.dirname(os.path.abspath(__file__)))), "seeded")
+    out = []
+    for d in sorted(glob.glob(os.path.join(base, "C[0-9][0-9]-[A-Z]"))):
+        pid = os.path.basename(d).split("-")[0]
+        if prop is not None and pid != prop:
+            continue
+        out.append({"kind": "M", "prop": pid, "rule": pid + "-", "edits": [], "patch": os.path.join(d, "patch.diff"), "name": "seeded change %s" % os.path.basename(d)})
+    props = [prop] if prop is not None else ["C%02d" % i for i in range(1, 20)]
+    for f in sorted(glob.glob(os.path.join(base, "refactors*", "g*_r*.diff"))):
+        for pid in props:
+            out.append({"kind": "T", "prop": pid, "rule": None, "edits": [], "patch": f, "name": "refactoring %s/%s" % (os.path.basename(os.path.dirname(f)), os.path.basename(f))})
+    return out
 
 
 def run_all(entries, jobs=16):
@@ -83,6 +112,11 @@ def summarize(entries, results, verbose=True):
             print("  [%s] %-4s %s %-60s %s" % (e["prop"], r[1], e["kind"], e["name"][:60], r[2][:140]))
     print("selftest: %d entries, %d ok, %d not applicable, %d FAILED" % (len(entries), n_ok, n_na, len(fails)))
     return fails
+
+
+def run_for_property_full(prop, jobs=16):
+    entries = select(prop, patches=True)
+    return entries, run_all(entries, jobs)
 
 
 def run_for_property(prop, jobs=16):
